@@ -144,3 +144,8 @@ Fixpoint hrun (q : pquirks) (s : pstate) (hs : list hstep) : pstate * list hobs 
 (* a storage that already holds the snapshot of checkpoint [base] (0 = empty), then a Store is started on it *)
 Definition boot (q : pquirks) (base : N) : pstate :=
   exec1 q (MkP (if base =? 0 then [] else [base]) [] 0 [] [] [] [] None (if base =? 0 then [] else [base]) []) Crash.
+
+(* dkv/recovery/checkpoint_list.go RetainOnly (as repaired by commit 8906a27): keep the listed ids and every
+   checkpoint newer than all of them.  Only modelled (the operator side is outside engine snapstore). *)
+Definition retain_only (ids l : list N) : list N :=
+  filter (fun c => mem c ids || (negb (is_nil ids) && (list_max ids <? c))) l.
